@@ -15,7 +15,7 @@ PROPS = {
  "C19": dict(needs=CORE + ["Events", "EventsMatch"], gen=[], slices=[("slices_core", "c19_dyck"), ("slices_core", "core_programs"), ("slices_core", "io_trees")]),
  "C01": dict(search=("slices_text", "c01_witness"), needs=["Base", "Num", "Lex", "Jamo", "SpecC01", "Skeleton"], gen=["GenParse", "GenTS"], slices=[("slices_text", "c01_exhaustive"), ("slices_text", "c01_model_points"), ("slices_text", "c01_respell")]),
  "C08": dict(needs=["Base", "Num", "NumProofs", "Lex", "ParseProofs", "PadToken", "Strings", "Builtins", "Interp", "LinkNames", "ImpSearch"], gen=["GenParse", "GenNames", "GenIO"], slices=[("slices_text", "c08_codec"), ("slices_text", "c08_spellings"), ("slices_world", "c15_search")]),
- "C09": dict(needs=["Base", "Num", "NumProofs", "Lex", "ParseProofs"], gen=["GenParse"], slices=[("slices_text", "c09_parse")]),
+ "C09": dict(needs=["Base", "Num", "NumProofs", "Lex", "ParseProofs", "ParseRules"], gen=["GenParse"], slices=[("slices_text", "c09_parse")]),
  "C14": dict(needs=REFINE + ["Files", "FilesProofs", "FilesTotal", "LinkNames", "RunG", "IOSpec", "FileIO"], gen=["GenIO"], slices=[("slices_world", "c14_histories"), ("slices_world", "c14_total_histories"), ("slices_world", "c14_in_model"), ("slices_world", "c14_faults")]),
  "C15": dict(needs=REFINE + ["ImpSearch", "ImportProofs", "ImpLoad", "ModFS", "ModFSProofs", "RunG", "ImportMain", "ImportDisk", "Pure"], gen=[], slices=[("slices_world", "c15_search"), ("slices_world", "c15_semantics"), ("slices_world", "c15_in_model")]),
  "C06": dict(needs=CORE + ["Float", "Eq", "Complex", "HeapFacts", "Refine1", "Refine2", "RunG", "Order", "EqLink", "DictLink"], gen=[], slices=[("slices_values", "c06_eq")]),
